@@ -38,7 +38,10 @@ TYPES = [
      "flatten": {"rust": "Common", "fields": [fld("color", "opt"), fld("quiet", "bool", "q", long=False)]},
      "subs": {"optional": True, "variants": [
          {"rust": "Run", "name": "run", "aliases": [], "fields": [fld("jobs", "deft", "j", default="2"), fld("arg", "posvec", long=False)]},
-         {"rust": "Stop", "name": "stop", "aliases": [], "fields": []}]}},
+         {"rust": "Stop", "name": "stop", "aliases": [], "fields": []},
+         {"rust": "Remote", "name": "remote", "aliases": [], "fields": [],
+          "nested": {"rust": "RemoteCmd", "variants": [{"rust": "Show", "name": "show", "aliases": [], "fields": []},
+                                                       {"rust": "Prune", "name": "prune", "aliases": [], "fields": [fld("name", "req", long=False)]}]}}]}},
 ]
 
 RUST_TY = {"bool": "bool", "counter": "u8", "req": "String", "opt": "Option<String>", "optopt": "Option<Option<String>>", "vec": "Vec<String>",
@@ -112,8 +115,24 @@ def gen_rust():
                 o.append("    pub %s: %s,\n" % (f["name"], RUST_TY[f["shape"]]))
             o.append("}\n")
         if t["subs"]:
+            for v in t["subs"]["variants"]:
+                if v.get("nested"):
+                    o.append("#[derive(Subcommand, Debug, Clone, PartialEq)]\npub enum %s {\n" % v["nested"]["rust"])
+                    for nv in v["nested"]["variants"]:
+                        if nv["fields"]:
+                            o.append("    %s {\n" % nv["rust"])
+                            for f in nv["fields"]:
+                                o.append("    " + attr(f))
+                                o.append("        %s: %s,\n" % (f["name"], RUST_TY[f["shape"]]))
+                            o.append("    },\n")
+                        else:
+                            o.append("    %s,\n" % nv["rust"])
+                    o.append("}\n")
             o.append("#[derive(Subcommand, Debug, Clone, PartialEq)]\npub enum %sCmd {\n" % t["type"])
             for v in t["subs"]["variants"]:
+                if v.get("nested"):
+                    o.append("    #[command(subcommand)]\n    %s(%s),\n" % (v["rust"], v["nested"]["rust"]))
+                    continue
                 if v["aliases"]:
                     o.append("    #[command(%s)]\n" % ", ".join('alias = "%s"' % a for a in v["aliases"]))
                 if v["fields"]:
@@ -135,7 +154,7 @@ def gen_rust():
             o.append("    #[command(subcommand)]\n    pub cmd: %s,\n" % (("Option<%sCmd>" if t["subs"]["optional"] else "%sCmd") % t["type"]))
         o.append("}\n")
         # to_json: {top: [fv...], cmd: variant name bytes ([] = none), sub: [fv...]}
-        o.append("impl %s {\n    pub fn to_json(&self) -> Value {\n        let mut top: Vec<Value> = vec![];\n        let mut sub: Vec<Value> = vec![];\n        let mut cmd = json!([]);\n" % t["type"])
+        o.append("impl %s {\n    pub fn to_json(&self) -> Value {\n        let mut top: Vec<Value> = vec![];\n        let mut sub: Vec<Value> = vec![];\n        let mut sub2: Vec<Value> = vec![];\n        let mut cmd = json!([]);\n        let mut cmd2 = json!([]);\n" % t["type"])
         for f in t["fields"]:
             o.append("        top.push(%s);\n" % to_json_expr(f, "self." + f["name"]))
         if t["flatten"]:
@@ -145,6 +164,23 @@ def gen_rust():
             opt = t["subs"]["optional"]
             o.append("        match &self.cmd {\n")
             for v in t["subs"]["variants"]:
+                if v.get("nested"):
+                    inner = "inner" if not opt else "inner"
+                    pat_full = "%sCmd::%s(inner)" % (t["type"], v["rust"])
+                    if opt:
+                        pat_full = "Some(%s)" % pat_full
+                    o.append("            %s => {\n                cmd = bs(\"%s\");\n                match inner {\n" % (pat_full, v["name"]))
+                    for nv in v["nested"]["variants"]:
+                        binds = ", ".join(f["name"] for f in nv["fields"])
+                        npat = "%s::%s" % (v["nested"]["rust"], nv["rust"])
+                        if nv["fields"]:
+                            npat += " { %s }" % binds
+                        o.append("                    %s => {\n                        cmd2 = bs(\"%s\");\n" % (npat, nv["name"]))
+                        for f in nv["fields"]:
+                            o.append("                        sub2.push(%s);\n" % to_json_expr(f, "(*%s)" % f["name"]))
+                        o.append("                    }\n")
+                    o.append("                }\n            }\n")
+                    continue
                 pat = "%sCmd::%s" % (t["type"], v["rust"])
                 binds = ", ".join(f["name"] for f in v["fields"])
                 pat_full = "%s { %s }" % (pat, binds) if v["fields"] else pat
@@ -157,7 +193,7 @@ def gen_rust():
             if opt:
                 o.append("            None => {}\n")
             o.append("        }\n")
-        o.append("        let _ = &mut sub;\n        json!({\"top\": top, \"cmd\": cmd, \"sub\": sub})\n    }\n}\n")
+        o.append("        let _ = (&mut sub, &mut sub2, &mut cmd2);\n        json!({\"top\": top, \"cmd\": cmd, \"sub\": sub, \"cmd2\": cmd2, \"sub2\": sub2})\n    }\n}\n")
     # registry
     o.append("pub enum AnyValue { %s }\n" % ", ".join("%s(%s)" % (t["type"], t["type"]) for t in TYPES))
     o.append("impl AnyValue {\n    pub fn to_json(&self) -> Value { match self { %s } }\n" % " ".join("AnyValue::%s(v) => v.to_json()," % t["type"] for t in TYPES))
@@ -214,6 +250,9 @@ def alphabet(t):
                 add(a)
             for f in v["fields"]:
                 field_toks(f)
+            if v.get("nested"):
+                for nv in v["nested"]["variants"]:
+                    add(nv["name"])
     for x in ("x", "y", "slo", "nope", "--", "--zz", "300"):
         add(x)
     return toks
@@ -235,7 +274,9 @@ def gen_desc():
         else:
             d["subs"] = dict(d["subs"])
             d["subs"]["present"] = True
-            d["subs"]["variants"] = [{"name": b(v["name"]), "aliases": [b(a) for a in v["aliases"]], "fields": v["fields"]} for v in t["subs"]["variants"]]
+            d["subs"]["variants"] = [{"name": b(v["name"]), "aliases": [b(a) for a in v["aliases"]], "fields": v["fields"],
+                                      "nested": [{"name": b(nv["name"]), "rust": nv["rust"], "fields": nv["fields"]} for nv in (v.get("nested") or {"variants": []})["variants"]]}
+                                     for v in t["subs"]["variants"]]
         d["alphabet"] = alphabet(t)
         d["groupt"] = F.group("x", [])
         for v, src in zip(d["subs"]["variants"], (t["subs"] or {"variants": []})["variants"]):
